@@ -21,6 +21,18 @@
 //   - "interleaved control frames": besides a ping/pong written between messages, the control
 //     frame is also spliced *inside* the following fragmented message (after its first fragment),
 //     which a peer may legally do although nbio's own WriteMessage never does.
+//   - part E: the negotiation outcome and the application's use of Conn.EnableWriteCompression are
+//     dimensions of their own: (enabled locally, negotiated with this peer) of the sender in
+//     {(no,no), (yes,no), (yes,yes), (no,yes)} x receiver {enabled, not enabled} (enabled when
+//     negotiated) x API {never called, (true) before every message, (false) then (true) before
+//     every message, (false)/(true) alternating between messages} x both roles x message lists; the
+//     reference decoder judges the wire by what was NEGOTIATED (RSV1 is illegal otherwise).
+//   - the allocator is a dimension: sender and receiver are run under the tracking allocator
+//     (buffers grow in place, as with the stock pool) and, for the bases allocWanted selects and the
+//     segmentations of allocSegs, also under mempool.NewAligned() (a growing Append returns a NEW
+//     handle and frees the old one), under the tracking allocator with exact capacities and
+//     MoveOnGrow (every growing Append/Realloc relocates and poisons the old buffer) and under
+//     mempool.NewSTD(). The sender's wire must not depend on the allocator.
 package main
 
 import (
@@ -786,6 +798,46 @@ func run(tier string, sh *vkit.Shard, p *vkit.Part) {
 	}
 	thorough := tier == "thorough"
 
+	// ---- part E (first: it is small, and a wall-clock cap must not cut it off): what the handshake
+	// negotiated x what is enabled locally x the application's use
+	// of Conn.EnableWriteCompression. (enabled locally, negotiated) of the sender in {(no,no),
+	// (yes,no), (yes,yes), (no,yes)}; the receiver has it enabled when it was negotiated, enabled or
+	// not when it was not. What may be on the wire is decided by what was NEGOTIATED.
+	{
+		sub := []msgSpec{
+			{wsgen.OpText, 0, "ramp"}, {wsgen.OpBinary, 1, "ramp"}, {wsgen.OpText, 125, "utf8"},
+			{wsgen.OpBinary, 126, "lowcomp"}, {wsgen.OpText, 126, "ramp"}, {wsgen.OpBinary, 251, "zero"},
+		}
+		var seqs [][]msgSpec
+		for i, a := range sub {
+			seqs = append(seqs, []msgSpec{a})
+			for j, b := range sub {
+				if thorough || j == (i+1)%len(sub) || j == (i+3)%len(sub) {
+					seqs = append(seqs, []msgSpec{a, b})
+				}
+				if thorough && j == (i+1)%len(sub) {
+					for _, c := range sub {
+						seqs = append(seqs, []msgSpec{a, b, c})
+					}
+				}
+			}
+		}
+		type ends struct{ snd, rcv, neg bool }
+		for _, e := range []ends{
+			{false, false, false}, {false, true, false}, {true, false, false}, {true, true, false},
+			{true, true, true}, {false, true, true},
+		} {
+			for _, api := range []string{"", "t", "ft", "toggle"} {
+				for _, c2s := range []bool{true, false} {
+					for _, ms := range seqs {
+						item(&caseSpec{C2S: c2s, F: 125, Comp: e.neg, Level: 1, Msgs: ms,
+							Nego: &negoSpec{SndLocal: e.snd, RcvLocal: e.rcv, Negotiated: e.neg, API: api}}, true)
+					}
+				}
+			}
+		}
+	}
+
 	// ---- part A: single messages, the full configuration matrix
 	for _, F := range frameLimits {
 		for _, n := range lengthsFor(F) {
@@ -913,45 +965,6 @@ func run(tier string, sh *vkit.Shard, p *vkit.Part) {
 			}
 		}
 	}
-
-	// ---- part E: what the handshake negotiated x what is enabled locally x the application's use
-	// of Conn.EnableWriteCompression. (enabled locally, negotiated) of the sender in {(no,no),
-	// (yes,no), (yes,yes), (no,yes)}; the receiver has it enabled when it was negotiated, enabled or
-	// not when it was not. What may be on the wire is decided by what was NEGOTIATED.
-	{
-		sub := []msgSpec{
-			{wsgen.OpText, 0, "ramp"}, {wsgen.OpBinary, 1, "ramp"}, {wsgen.OpText, 125, "utf8"},
-			{wsgen.OpBinary, 126, "lowcomp"}, {wsgen.OpText, 126, "ramp"}, {wsgen.OpBinary, 251, "zero"},
-		}
-		var seqs [][]msgSpec
-		for i, a := range sub {
-			seqs = append(seqs, []msgSpec{a})
-			for j, b := range sub {
-				if thorough || j == (i+1)%len(sub) || j == (i+3)%len(sub) {
-					seqs = append(seqs, []msgSpec{a, b})
-				}
-				if thorough && j == (i+1)%len(sub) {
-					for _, c := range sub {
-						seqs = append(seqs, []msgSpec{a, b, c})
-					}
-				}
-			}
-		}
-		type ends struct{ snd, rcv, neg bool }
-		for _, e := range []ends{
-			{false, false, false}, {false, true, false}, {true, false, false}, {true, true, false},
-			{true, true, true}, {false, true, true},
-		} {
-			for _, api := range []string{"", "t", "ft", "toggle"} {
-				for _, c2s := range []bool{true, false} {
-					for _, ms := range seqs {
-						item(&caseSpec{C2S: c2s, F: 125, Comp: e.neg, Level: 1, Msgs: ms,
-							Nego: &negoSpec{SndLocal: e.snd, RcvLocal: e.rcv, Negotiated: e.neg, API: api}}, true)
-					}
-				}
-			}
-		}
-	}
 }
 
 func replay(scenario string, input json.RawMessage) string {
@@ -981,12 +994,15 @@ func main() {
 	}
 	vkit.Main(&vkit.Spec{
 		Property: "C12", Level: "model_checking",
-		Rule: "one case = (sender role, frame limit F, compression setting, message list, control-frame placement) x one segmentation of the sender's real wire bytes fed to a real receiver Conn.Parse; enumerated: F in {1,2,125,126,1000,32768} x lengths {0,1,2,125,126,127,65535,65536,F-1,F,F+1,2F,2F+1} x {text,binary} x both roles x {off, levels -2..9} x 4 content classes; F in {65535,65536,131072} x lengths {65535,65536,65537,F-1,F,F+1,2F+1} (64-bit length form; quick: compression {off,1} x content {ramp,lowcomp}); all sequences of 1-3 messages over a 6-message subset with ping/pong between or spliced inside the next fragmented message; segmentations: one piece, every single cut (wires <= 2 KiB; structural cuts otherwise), double cuts (all for wires <= 48 B, structural pairs otherwise), byte-at-a-time (wires <= 4 KiB), fixed chunks for long wires. A case is non-trivial when the wire has more than one frame, is compressed, is longer than 127 bytes or was fed in more than one Parse call. states = distinct private parser states after the Parse calls of the feed, transitions = Parse calls.",
+		Rule: "one case = (sender role, frame limit F, compression setting, message list, control-frame placement) x one segmentation of the sender's real wire bytes fed to a real receiver Conn.Parse; enumerated: F in {1,2,125,126,1000,32768} x lengths {0,1,2,125,126,127,65535,65536,F-1,F,F+1,2F,2F+1} x {text,binary} x both roles x {off, levels -2..9} x 4 content classes; F in {65535,65536,131072} x lengths {65535,65536,65537,F-1,F,F+1,2F+1} (64-bit length form; quick: compression {off,1} x content {ramp,lowcomp}); all sequences of 1-3 messages over a 6-message subset with ping/pong between or spliced inside the next fragmented message; (compression enabled locally, negotiated) in {(no,no),(yes,no),(yes,yes),(no,yes)} x receiver enabled/not x Conn.EnableWriteCompression usage {never, (true), (false)(true), alternating} x both roles x 18 message lists (thorough: 78); allocator in {tracking (grow in place), mempool.NewAligned(), tracking + MoveOnGrow, mempool.NewSTD()} for sender and receiver (quick: the other three for every sequence/variant/negotiation base and the single-message sub-matrix compression {off,1} x content {ramp,lowcomp}, over one piece, structural cuts of the first and last two frames, byte-at-a-time and chunks of 3/31/1021/4093 bytes; thorough: every base, the base's own segmentation set); segmentations: one piece, every single cut (wires <= 2 KiB; structural cuts otherwise), double cuts (all for wires <= 48 B, structural pairs otherwise), byte-at-a-time (wires <= 4 KiB), fixed chunks for long wires. A case is non-trivial when the wire has more than one frame, is compressed, is longer than 127 bytes or was fed in more than one Parse call. states = distinct private parser states after the Parse calls of the feed, transitions = Parse calls.",
 		Assumptions: []string{
 			"text messages carry valid UTF-8 (a text message with invalid UTF-8 is rejected by design, C13)",
 			"the receiver uses an inline executor; CloseAndClean is performed by the harness after a Parse error or once the implementation closed the conn, as the engine does",
 			"MessageLengthLimit = 0 (limits are C15); the reference decoder (verif/seqx/wsgen: ParseFrames, Judge, Inflate) is independent of nbio and trusted, as are compress/flate and unicode/utf8 of the standard library",
 			"control frames spliced inside a fragmented message are produced by reordering the sender's own frame writes (a legal peer behaviour that nbio's WriteMessage itself never produces)",
+			"what may be on the wire is decided by what the handshake negotiated: RSV1 on a connection that did not negotiate permessage-deflate is illegal whatever is enabled locally and whatever the application asked for with EnableWriteCompression; on a connection that negotiated it a message may be sent compressed or not",
+			"the combination 'not enabled locally, but negotiated' (reachable through the public NewClientConn/NewServerConn constructors and, for a client, by a server that answers with an extension that was not offered) is enumerated for the sender only; a receiver has compression enabled whenever it was negotiated",
+			"allocator dimension: the receiver's and the sender's behaviour must not depend on which mempool.Allocator is installed (Engine.BodyAllocator / mempool.DefaultMemPool); a failure that does not occur under the tracking allocator carries the allocator in its signature",
 			"quick tier: the full single-cut enumeration is applied to compression settings {off,-2,1,9} and wires of at most 24 frames; other levels / wires of more frames get structural cuts (first and last 3 frames); double cuts for uncompressed sequences and ramp content; messages that need more than 4096 frames (64 KiB with F<=2) are reduced to content classes ramp/lowcomp and compression {off,0,1} and fed in chunks (one-piece feed only for uncompressed ramp); thorough lifts this",
 		},
 		Seq: run, ReplaySeq: replay, MinNonTrivial: 1000,
